@@ -339,6 +339,66 @@ func Mutants(doc M, seed int64, max int) []Mutant {
 			})
 		}
 	}
+	// compositions nested inline: an allOf whose inline member is a oneOf / an
+	// allOf / an array; a oneOf whose inline member is an allOf
+	for _, shape := range []string{"allof-inline-oneof", "allof-inline-allof", "allof-inline-array", "oneof-inline-allof", "allof-inline-empty"} {
+		shape := shape
+		add("nested-composition-"+shape, []string{"components", "schemas"}, func(d M) bool {
+			comps, ok := d["components"].(M)
+			if !ok {
+				comps = M{}
+				d["components"] = comps
+			}
+			schemas, ok := comps["schemas"].(M)
+			if !ok {
+				schemas = M{}
+				comps["schemas"] = schemas
+			}
+			objA := M{"type": "object", "properties": M{"a": M{"type": "string"}}}
+			objB := M{"type": "object", "properties": M{"b": M{"type": "integer"}}}
+			schemas["VerifLeafA"], schemas["VerifLeafB"] = objA, objB
+			refA, refB := M{"$ref": "#/components/schemas/VerifLeafA"}, M{"$ref": "#/components/schemas/VerifLeafB"}
+			switch shape {
+			case "allof-inline-oneof":
+				schemas["VerifNested"] = M{"allOf": L{refA, M{"oneOf": L{refA, refB}}}}
+			case "allof-inline-allof":
+				schemas["VerifNested"] = M{"allOf": L{refA, M{"allOf": L{refB, M{"type": "object", "properties": M{"c": M{"type": "boolean"}}}}}}}
+			case "allof-inline-array":
+				schemas["VerifNested"] = M{"allOf": L{refA, M{"type": "array", "items": M{"type": "string"}}}}
+			case "oneof-inline-allof":
+				schemas["VerifNested"] = M{"oneOf": L{refA, M{"allOf": L{refB, M{"type": "object", "properties": M{"c": M{"type": "boolean"}}}}}}}
+			case "allof-inline-empty":
+				schemas["VerifNested"] = M{"allOf": L{refA, M{}}}
+			}
+			paths, ok := d["paths"].(M)
+			if !ok {
+				return false
+			}
+			paths["/verif-nested"] = M{"post": M{"requestBody": M{"content": M{"application/json": M{"schema": M{"$ref": "#/components/schemas/VerifNested"}}}}, "responses": M{"200": M{"description": "ok"}}}}
+			return true
+		})
+	}
+	// server variables whose defaults mention variables (one another, themselves)
+	for _, shape := range []string{"mutual-growing", "self-growing", "mutual-plain", "chain", "undefined"} {
+		shape := shape
+		add("server-variable-defaults-"+shape, []string{"servers"}, func(d M) bool {
+			vars := M{}
+			switch shape {
+			case "mutual-growing":
+				vars["base"], vars["root"] = M{"default": "{root}/v1"}, M{"default": "{base}"}
+			case "self-growing":
+				vars["base"], vars["root"] = M{"default": "{base}/v1"}, M{"default": "r"}
+			case "mutual-plain":
+				vars["base"], vars["root"] = M{"default": "{root}"}, M{"default": "{base}"}
+			case "chain":
+				vars["base"], vars["root"] = M{"default": "{root}/x"}, M{"default": "api"}
+			case "undefined":
+				vars["base"], vars["root"] = M{"default": "{nowhere}"}, M{"default": "r"}
+			}
+			d["servers"] = L{M{"url": "https://example.com/{base}/{root}", "variables": vars}}
+			return true
+		})
+	}
 	// a null entry in each component map (and in a few other maps the loader
 	// lets through)
 	for _, kind := range []string{"schemas", "parameters", "headers", "requestBodies", "responses", "securitySchemes", "links", "examples", "callbacks"} {
